@@ -42,6 +42,12 @@ on insert shardInfo.scraping(s, k, v)
    assert[C04] @process_limit  s.gProc < c.option.MaxProcessSeries
    assert[C08] @destination_in_sync  s.changeAble
 
+// "When a target is moved between shards, the same cycle marks it in-transfer on the source and assigns it in
+// normal state to the destination" (C05): checked at the insert transferTarget performs, wherever it is inlined.
+on insert shardInfo.scraping(s, k, v) in transferTarget
+   assert[C05] @moved_copy_normal_source_marked s == to && k == hash && v.TargetState == "" && from.scraping[k] != nil
+        && from.scraping[k].TargetState == "in_transfer" && v != from.scraping[k]
+
 // ---------- leaf helpers ----------
 contract Coordinator.isTooBig
   requires wfOpt(c) && tar != nil
@@ -225,4 +231,38 @@ contract Coordinator.tryScaleDown
   loop 2 invariant[C07] @tail_removable forall j in scale..len(shards) :: removable(c, shards[j])
   loop 2 invariant wfShards(shards)
   loop 2 invariant[C01] monotone(shards)
+
+// ---------- garbage collection of planned sets (C01, C05) ----------
+// "A target is taken away from a shard only when it is no longer discovered or when another such shard also
+// reports scraping it" (C01); "the source keeps it until the destination reports at least three scrapes of it and
+// the source itself has scraped it at least three times" (C05; the literal 3 is the README's hand-over rule).
+// Deletes anywhere else cannot resolve these names and are reported.
+on delete shardInfo.scraping(s, k)
+   assert[C01] @delete_justified !(k in active) || (exists o in changeAbleShards :: o != s && o.changeAble && k in o.scraping)
+   assert[C05] @handover_rule (k in active && s.scraping[k].TargetState == "in_transfer") ==>
+        (s.scraping[k].ScrapeTimes >= 3 && (exists o in changeAbleShards :: o != s && k in o.scraping && o.scraping[k].ScrapeTimes >= 3))
+
+pred covered(changeAbleShards, active) = forall h in active ::
+    (exists s in changeAbleShards :: h in old(keys(s.scraping))) ==> (exists s in changeAbleShards :: h in s.scraping)
+pred onlyRemoves(changeAbleShards) = forall s in changeAbleShards :: forall h in s.scraping :: h in old(keys(s.scraping))
+
+contract Coordinator.gcTargets
+  requires wfOpt(c) && wfShards(changeAbleShards) && allChangeAble(changeAbleShards)
+  ensures[C01] @coverage covered(changeAbleShards, active)
+  ensures[C01] @only_removes onlyRemoves(changeAbleShards)
+  ensures wfShards(changeAbleShards)
+  ensures othersKeepKeys(changeAbleShards)
+  modifies mapof(shardInfo.scraping)
+  loop 1 invariant[C01] @coverage covered(changeAbleShards, active)
+  loop 1 invariant[C01] @only_removes onlyRemoves(changeAbleShards)
+  loop 1 invariant wfShards(changeAbleShards)
+  loop 1 invariant othersKeepKeys(changeAbleShards)
+  loop 2 invariant[C01] @coverage covered(changeAbleShards, active)
+  loop 2 invariant[C01] @only_removes onlyRemoves(changeAbleShards)
+  loop 2 invariant wfShards(changeAbleShards)
+  loop 2 invariant othersKeepKeys(changeAbleShards)
+  loop 3 invariant[C01] @coverage covered(changeAbleShards, active)
+  loop 3 invariant[C01] @only_removes onlyRemoves(changeAbleShards)
+  loop 3 invariant wfShards(changeAbleShards)
+  loop 3 invariant othersKeepKeys(changeAbleShards)
 @*/
